@@ -203,6 +203,189 @@ func dominatingConds(blk *ssa.BasicBlock) []condTruth {
 			if len(succ.Preds) == 1 && succ.Dominates(blk) {
 				c, neg := stripNot(ifi.Cond)
 				out = append(out, condTruth{c, (k == 0) != neg})
+				// inside a range loop over filter(xs, pred): pred holds for the current element
+				if (k == 0) != neg {
+					out = append(out, filterPredConds(c)...)
+				}
+			}
+		}
+	}
+	return out
+}
+
+// filterPredConds: cond is the test `i < len(ys)` of a range loop where ys is the result of a
+// filtering helper (filterShape) applied to a predicate that is a func literal with a single
+// return: what the predicate returns holds for every element the loop sees.
+func filterPredConds(cond ssa.Value) []condTruth {
+	if curProg == nil {
+		return nil
+	}
+	bo, ok := cond.(*ssa.BinOp)
+	if !ok || bo.Op != token.LSS {
+		return nil
+	}
+	lc, ok := bo.Y.(*ssa.Call)
+	if !ok {
+		return nil
+	}
+	if b, ok := lc.Call.Value.(*ssa.Builtin); !ok || b.Name() != "len" || len(lc.Call.Args) != 1 {
+		return nil
+	}
+	fc, ok := lc.Call.Args[0].(*ssa.Call)
+	if !ok || !curProg.filterShape(fc.Call.StaticCallee()) {
+		return nil
+	}
+	return predReturnConds(curProg, fc.Call.Args[1])
+}
+
+// predReturnConds: the predicate is a func literal with a single return: its returned value.
+func predReturnConds(p *Prog, pred ssa.Value) []condTruth {
+	preds := p.funcValueTargets(pred, 1)
+	if len(preds) != 1 || preds[0].Blocks == nil {
+		return nil
+	}
+	var out []condTruth
+	n := 0
+	eachInstr(preds[0], func(in ssa.Instruction) {
+		if ret, ok := in.(*ssa.Return); ok && len(ret.Results) == 1 {
+			n++
+			c, neg := stripNot(ret.Results[0])
+			out = append(out, condTruth{c, !neg})
+		}
+	})
+	if n != 1 {
+		return nil
+	}
+	return out
+}
+
+// filterShape: fn(xs, pred) returns the elements of xs for which pred holds, in order: the result
+// only grows by appending the current element of a range over xs under pred(element), and is
+// returned after the loop.  (Generic or not; recognised from the body.)
+var filterShapeCache = map[*ssa.Function]bool{}
+
+func (p *Prog) filterShape(fn *ssa.Function) bool {
+	if fn == nil {
+		return false
+	}
+	if v, ok := filterShapeCache[fn]; ok {
+		return v
+	}
+	v := p.filterShape1(fn)
+	filterShapeCache[fn] = v
+	return v
+}
+
+func (p *Prog) filterShape1(fn *ssa.Function) bool {
+	if !p.InRepo(fn) || fn.Blocks == nil || len(fn.Params) != 2 || fn.Signature.Recv() != nil || fn.Signature.Results().Len() != 1 {
+		return false
+	}
+	if _, ok := fn.Params[0].Type().Underlying().(*types.Slice); !ok {
+		return false
+	}
+	if !types.Identical(fn.Signature.Results().At(0).Type(), fn.Params[0].Type()) {
+		return false
+	}
+	if _, ok := fn.Params[1].Type().Underlying().(*types.Signature); !ok {
+		return false
+	}
+	isElem := func(v ssa.Value) bool {
+		ld, ok := v.(*ssa.UnOp)
+		if !ok || ld.Op != token.MUL {
+			return false
+		}
+		ia, ok := ld.X.(*ssa.IndexAddr)
+		return ok && ia.X == ssa.Value(fn.Params[0])
+	}
+	appends := map[ssa.Value]bool{}
+	ok := true
+	eachInstr(fn, func(in ssa.Instruction) {
+		c, isCall := in.(*ssa.Call)
+		if !isCall {
+			return
+		}
+		if b, isB := c.Call.Value.(*ssa.Builtin); isB {
+			if b.Name() != "append" {
+				return
+			}
+			// append(acc, elem) under pred(elem)
+			guarded := false
+			for _, ct := range dominatingCondsPlain(c.Block()) {
+				pc, isPc := ct.Cond.(*ssa.Call)
+				if isPc && ct.Truth && pc.Call.Value == ssa.Value(fn.Params[1]) && len(pc.Call.Args) == 1 && isElem(pc.Call.Args[0]) {
+					guarded = true
+				}
+			}
+			one := false
+			if sl, isSl := c.Call.Args[1].(*ssa.Slice); isSl {
+				if al, isAl := sl.X.(*ssa.Alloc); isAl {
+					n := 0
+					for _, ref := range *al.Referrers() {
+						if ia, isIa := ref.(*ssa.IndexAddr); isIa {
+							for _, r2 := range *ia.Referrers() {
+								if st, isSt := r2.(*ssa.Store); isSt && st.Addr == ssa.Value(ia) {
+									n++
+									if !isElem(st.Val) {
+										n = -100
+									}
+								}
+							}
+						}
+					}
+					one = n == 1
+				}
+			}
+			if !guarded || !one {
+				ok = false
+			}
+			appends[c] = true
+			return
+		}
+		if c.Call.Value != ssa.Value(fn.Params[1]) {
+			ok = false // anything else the helper calls
+		}
+	})
+	if !ok || len(appends) != 1 {
+		return false
+	}
+	nret := 0
+	eachInstr(fn, func(in ssa.Instruction) {
+		ret, isRet := in.(*ssa.Return)
+		if !isRet {
+			return
+		}
+		nret++
+		if loopDepthOf(ret.Block()) > 0 {
+			ok = false
+		}
+		for _, o := range origins(ret.Results[0]) {
+			if k, isK := o.(*ssa.Const); isK && k.Value == nil {
+				continue
+			}
+			if !appends[o] {
+				ok = false
+			}
+		}
+	})
+	return ok && nret == 1
+}
+
+// dominatingCondsPlain: the function's own dominating branch conditions.
+func dominatingCondsPlain(blk *ssa.BasicBlock) []condTruth {
+	var out []condTruth
+	fn := blk.Parent()
+	for _, b := range fn.Blocks {
+		ifi, ok := lastIf(b)
+		if !ok {
+			continue
+		}
+		for k, succ := range b.Succs {
+			if b.Succs[0] == b.Succs[1] {
+				continue
+			}
+			if len(succ.Preds) == 1 && succ.Dominates(blk) {
+				c, neg := stripNot(ifi.Cond)
+				out = append(out, condTruth{c, (k == 0) != neg})
 			}
 		}
 	}
@@ -499,6 +682,62 @@ type fieldAccess struct {
 // fieldAccesses lists every access to field f in the given functions.  For
 // map/slice-typed fields the uses of the loaded value are classified too.
 func fieldAccesses(fns []*ssa.Function, f *types.Var) []fieldAccess {
+	out := fieldAccesses1(fns, f)
+	for i := range out {
+		out[i].Base = deSpill(out[i].Base)
+	}
+	return out
+}
+
+// deSpill: a parameter that is captured by a closure lives in a local the compiler's intermediate
+// form loads it from; the loaded value is the parameter (when nothing else is stored there).
+func deSpill(v ssa.Value) ssa.Value {
+	ld, ok := v.(*ssa.UnOp)
+	if !ok || ld.Op != token.MUL {
+		return v
+	}
+	al, ok := ld.X.(*ssa.Alloc)
+	if !ok {
+		return v
+	}
+	var par *ssa.Parameter
+	for _, ref := range *al.Referrers() {
+		switch r := ref.(type) {
+		case *ssa.Store:
+			if r.Addr != ssa.Value(al) {
+				return v
+			}
+			q, isPar := r.Val.(*ssa.Parameter)
+			if !isPar || (par != nil && par != q) {
+				return v
+			}
+			par = q
+		case *ssa.MakeClosure:
+			// captured: the closures must not store to it
+			if cf, ok := r.Fn.(*ssa.Function); ok {
+				for i, b := range r.Bindings {
+					if b != ssa.Value(al) || i >= len(cf.FreeVars) {
+						continue
+					}
+					for _, fr := range *cf.FreeVars[i].Referrers() {
+						if st, ok := fr.(*ssa.Store); ok && st.Addr == ssa.Value(cf.FreeVars[i]) {
+							return v
+						}
+					}
+				}
+			}
+		case *ssa.UnOp, *ssa.DebugRef:
+		default:
+			return v
+		}
+	}
+	if par == nil {
+		return v
+	}
+	return par
+}
+
+func fieldAccesses1(fns []*ssa.Function, f *types.Var) []fieldAccess {
 	var out []fieldAccess
 	for _, fn := range fns {
 		eachInstr(fn, func(in ssa.Instruction) {
@@ -722,7 +961,7 @@ func withCallees(p *Prog, fn *ssa.Function, depth int) []*ssa.Function {
 		}
 		eachCall(f, func(c ssa.CallInstruction) {
 			callee := c.Common().StaticCallee()
-			if callee != nil && p.InRepo(callee) && callee.Pkg != nil && rootFn(fn).Pkg != nil && callee.Pkg == rootFn(fn).Pkg {
+			if callee != nil && p.InRepo(callee) && pkgOfFn(callee) != nil && pkgOfFn(callee) == pkgOfFn(rootFn(fn)) {
 				walk(callee, d-1)
 			}
 		})
@@ -754,7 +993,6 @@ func onlyCalledFrom(p *Prog, fn, root *ssa.Function, depth int) bool {
 	}
 	return true
 }
-
 
 // sameGlobal compares package-level variables by package path and name: with test
 // variants loaded a package exists twice and its globals are distinct objects.
@@ -956,7 +1194,6 @@ func rangeCallsOf(p *Prog, fn *ssa.Function) []ssa.CallInstruction {
 	return idx[fn]
 }
 
-
 // libDecodeKind: the call decodes a frame body with the library: the invoke itself
 // (DecodeBody / ConvertFromRawFrame / DecodeFrame on a frame codec) or a small repo wrapper around
 // it (same results, e.g. one that adds a recover).  Returns the method name, "" otherwise.
@@ -994,7 +1231,6 @@ func libDecodeKind(p *Prog, call ssa.CallInstruction) string {
 	}
 	return kind
 }
-
 
 // reachingStore: for a load of a local that is assigned several times (a captured variable, a
 // named result), the one store whose value the load sees: the latest store that dominates the
@@ -1073,7 +1309,6 @@ func reachingStore(ld *ssa.UnOp) *ssa.Store {
 	return last
 }
 
-
 // zeroAtLoad: the load of a local reads its zero value: no store to the local can run before it.
 func zeroAtLoad(ld *ssa.UnOp) bool {
 	al, ok := ld.X.(*ssa.Alloc)
@@ -1127,4 +1362,449 @@ func zeroAtLoad(ld *ssa.UnOp) bool {
 		}
 	}
 	return true
+}
+
+// anyOfKind: fn is a membership helper over its first parameter, a slice: "eq" when it reports
+// whether the second parameter equals one of the elements, "func" when it reports whether the
+// second parameter, a predicate, holds for one of them; "" otherwise.  The standard library's
+// slices.Contains / slices.ContainsFunc are known; a repository function (generic or not) is
+// recognised from the shape of its body: true is returned only under the comparison of (the
+// predicate applied to) an element of the slice, false only after the loop.
+var anyOfCache = map[*ssa.Function]string{}
+
+func (p *Prog) anyOfKind(fn *ssa.Function) string {
+	if fn == nil {
+		return ""
+	}
+	if k, ok := anyOfCache[fn]; ok {
+		return k
+	}
+	anyOfCache[fn] = ""
+	k := p.anyOfKind1(fn)
+	anyOfCache[fn] = k
+	return k
+}
+
+func (p *Prog) anyOfKind1(fn *ssa.Function) string {
+	o := fn
+	if og := fn.Origin(); og != nil {
+		o = og
+	}
+	if o.Pkg != nil && o.Pkg.Pkg.Path() == "slices" {
+		switch o.Name() {
+		case "Contains":
+			return "eq"
+		case "ContainsFunc":
+			return "func"
+		}
+		return ""
+	}
+	if !p.InRepo(fn) || fn.Blocks == nil || len(fn.Params) != 2 || fn.Signature.Recv() != nil {
+		return ""
+	}
+	if _, ok := fn.Params[0].Type().Underlying().(*types.Slice); !ok {
+		return ""
+	}
+	res := fn.Signature.Results()
+	if res.Len() != 1 {
+		return ""
+	}
+	if b, ok := res.At(0).Type().Underlying().(*types.Basic); !ok || b.Kind() != types.Bool {
+		return ""
+	}
+	isElem := func(v ssa.Value) bool {
+		for _, o := range origins(v) {
+			ld, ok := o.(*ssa.UnOp)
+			if !ok || ld.Op != token.MUL {
+				return false
+			}
+			ia, ok := ld.X.(*ssa.IndexAddr)
+			if !ok {
+				return false
+			}
+			for _, so := range origins(ia.X) {
+				if so != ssa.Value(fn.Params[0]) {
+					return false
+				}
+			}
+		}
+		return true
+	}
+	isSubject := func(v ssa.Value) bool {
+		for _, o := range origins(v) {
+			if o != ssa.Value(fn.Params[1]) {
+				return false
+			}
+		}
+		return true
+	}
+	kind := ""
+	setKind := func(k string) bool {
+		if kind != "" && kind != k {
+			return false
+		}
+		kind = k
+		return true
+	}
+	sawTrue, sawFalse, ok := false, false, true
+	eachInstr(fn, func(in ssa.Instruction) {
+		ret, isRet := in.(*ssa.Return)
+		if !isRet {
+			return
+		}
+		for _, o := range origins(ret.Results[0]) {
+			switch x := o.(type) {
+			case *ssa.Const:
+				if x.Value == nil {
+					ok = false
+					return
+				}
+				if !constant.BoolVal(x.Value) {
+					sawFalse = true
+					if loopDepthOf(ret.Block()) > 0 {
+						ok = false
+					}
+					continue
+				}
+				sawTrue = true
+				guarded := false
+				for _, ct := range dominatingConds(ret.Block()) {
+					if !ct.Truth {
+						continue
+					}
+					switch c := ct.Cond.(type) {
+					case *ssa.BinOp:
+						if c.Op == token.EQL && (isElem(c.X) && isSubject(c.Y) || isElem(c.Y) && isSubject(c.X)) {
+							guarded = setKind("eq")
+						}
+					case *ssa.Call:
+						if !c.Call.IsInvoke() && isSubject(c.Call.Value) && len(c.Call.Args) == 1 && isElem(c.Call.Args[0]) {
+							guarded = setKind("func")
+						}
+					}
+				}
+				if !guarded {
+					ok = false
+				}
+			case *ssa.Call:
+				// a wrapper of another membership helper over the same arguments
+				callee := x.Call.StaticCallee()
+				if k := p.anyOfKind(callee); k != "" && len(x.Call.Args) == 2 && x.Call.Args[0] == ssa.Value(fn.Params[0]) && x.Call.Args[1] == ssa.Value(fn.Params[1]) {
+					if setKind(k) {
+						sawTrue, sawFalse = true, true
+						continue
+					}
+				}
+				ok = false
+			default:
+				ok = false
+			}
+		}
+	})
+	if !ok || !sawTrue || !sawFalse {
+		return ""
+	}
+	return kind
+}
+
+// constTableArg: v is a package-level slice literal of constants (see constSliceLiteral).
+func (p *Prog) constTableArg(v ssa.Value) ([]constant.Value, *ssa.Global, bool) {
+	ld, ok := v.(*ssa.UnOp)
+	if !ok || ld.Op != token.MUL {
+		return nil, nil, false
+	}
+	g, ok := ld.X.(*ssa.Global)
+	if !ok {
+		return nil, nil, false
+	}
+	t, ok := p.constSliceLiteral(g)
+	return t, g, ok
+}
+
+// pkgOfFn: the package a function belongs to; for an instance of a generic function (which has
+// no package of its own) the package of the generic function.
+func pkgOfFn(f *ssa.Function) *ssa.Package {
+	if f == nil {
+		return nil
+	}
+	if f.Pkg != nil {
+		return f.Pkg
+	}
+	if f.Parent() != nil {
+		return pkgOfFn(f.Parent())
+	}
+	if o := f.Origin(); o != nil && o != f {
+		return o.Pkg
+	}
+	return nil
+}
+
+// ---------------------------------------------------------------------------
+// operations on a concurrent map field: sync.Map used directly, or through a typed wrapper (a
+// struct of the repository whose only field is the sync.Map and whose methods forward to it)
+
+type mapOp struct {
+	Kind    string              // Load, Store, LoadOrStore, LoadAndDelete, Delete, Range, ...
+	Call    ssa.CallInstruction // the site in the code that uses the map (the wrapper call when wrapped)
+	Fn      *ssa.Function
+	Key     ssa.Value // at the site; nil when the wrapper derives it from its arguments
+	Val     ssa.Value // stored value at the site (Store, LoadOrStore); nil when not applicable / derived
+	Wrapper *ssa.Function
+	Inner   ssa.CallInstruction // the sync.Map call itself
+}
+
+// syncMapWrapperField: t is (a pointer to) a struct of the repository whose only field is a
+// sync.Map (or *sync.Map); returns that field.
+func (p *Prog) syncMapWrapperField(t types.Type) *types.Var {
+	n := namedOf(t)
+	if n == nil || n.Obj().Pkg() == nil || !strings.HasPrefix(n.Obj().Pkg().Path(), modPath) {
+		return nil
+	}
+	st, ok := n.Underlying().(*types.Struct)
+	if !ok || st.NumFields() != 1 {
+		return nil
+	}
+	ft := types.TypeString(st.Field(0).Type(), nil)
+	if ft != "sync.Map" && ft != "*sync.Map" {
+		return nil
+	}
+	return st.Field(0)
+}
+
+func syncMapMethod(c ssa.CallInstruction) string {
+	callee := c.Common().StaticCallee()
+	if callee == nil || callee.Pkg == nil || callee.Pkg.Pkg.Path() != "sync" {
+		return ""
+	}
+	if rn := recvNamed(callee); rn == nil || rn.Obj().Name() != "Map" {
+		return ""
+	}
+	return callee.Name()
+}
+
+// baseField: the struct field a receiver operand addresses (&x.f) or is loaded from (x.f of pointer type).
+func baseField(v ssa.Value) *types.Var {
+	switch x := v.(type) {
+	case *ssa.FieldAddr:
+		return fieldOfAddr(x)
+	case *ssa.UnOp:
+		if fa, ok := x.X.(*ssa.FieldAddr); ok && x.Op == token.MUL {
+			return fieldOfAddr(fa)
+		}
+	}
+	return nil
+}
+
+func (p *Prog) syncMapOps(f *types.Var, fns []*ssa.Function) []mapOp {
+	var out []mapOp
+	inner := p.syncMapWrapperField(f.Type())
+	for _, fn := range fns {
+		fn := fn
+		eachCall(fn, func(c ssa.CallInstruction) {
+			args := c.Common().Args
+			if len(args) == 0 || baseField(args[0]) != f {
+				return
+			}
+			if k := syncMapMethod(c); k != "" && inner == nil {
+				op := mapOp{Kind: k, Call: c, Fn: fn, Inner: c}
+				if len(args) > 1 {
+					op.Key = args[1]
+				}
+				if len(args) > 2 && (k == "Store" || k == "LoadOrStore" || k == "Swap") {
+					op.Val = args[2]
+				}
+				out = append(out, op)
+				return
+			}
+			w := c.Common().StaticCallee()
+			if inner == nil || w == nil || w.Blocks == nil || namedOf(f.Type()) != recvNamed(w) {
+				return
+			}
+			eachCall(w, func(ic ssa.CallInstruction) {
+				k := syncMapMethod(ic)
+				iargs := ic.Common().Args
+				if k == "" || len(iargs) == 0 || baseField(iargs[0]) != inner {
+					return
+				}
+				op := mapOp{Kind: k, Call: c, Fn: fn, Wrapper: w, Inner: ic}
+				outer := func(v ssa.Value) ssa.Value {
+					var res ssa.Value
+					for _, o := range origins(v) {
+						par, ok := o.(*ssa.Parameter)
+						if !ok {
+							return nil
+						}
+						for j, wp := range w.Params {
+							if wp == par && j < len(args) {
+								if res != nil && res != args[j] {
+									return nil
+								}
+								res = args[j]
+							}
+						}
+					}
+					return res
+				}
+				if len(iargs) > 1 {
+					op.Key = outer(iargs[1])
+				}
+				if len(iargs) > 2 && (k == "Store" || k == "LoadOrStore" || k == "Swap") {
+					op.Val = outer(iargs[2])
+				}
+				out = append(out, op)
+			})
+		})
+	}
+	return out
+}
+
+// ---------------------------------------------------------------------------
+// what a function receives from its caller: a parameter, or a field of a parameter that is a
+// struct passed by value (an options record built at the call site)
+
+type paramSlot struct {
+	Par   int
+	Field int // -1: the parameter itself
+}
+
+// slotOfValue: inside fn, v is parameter i or field k of the struct parameter i.
+func slotOfValue(fn *ssa.Function, v ssa.Value) (paramSlot, bool) {
+	v = deSpill(v)
+	idx := func(par *ssa.Parameter) int {
+		for i, q := range fn.Params {
+			if q == par {
+				return i
+			}
+		}
+		return -1
+	}
+	switch x := v.(type) {
+	case *ssa.Parameter:
+		if i := idx(x); i >= 0 {
+			return paramSlot{i, -1}, true
+		}
+	case *ssa.Field:
+		if par, ok := deSpill(x.X).(*ssa.Parameter); ok {
+			if i := idx(par); i >= 0 {
+				return paramSlot{i, x.Field}, true
+			}
+		}
+	case *ssa.UnOp:
+		if x.Op != token.MUL {
+			break
+		}
+		if fa, ok := x.X.(*ssa.FieldAddr); ok {
+			// the struct parameter was given an address (it is read field by field)
+			if al, ok := fa.X.(*ssa.Alloc); ok {
+				var par *ssa.Parameter
+				n := 0
+				for _, ref := range *al.Referrers() {
+					if st, ok := ref.(*ssa.Store); ok && st.Addr == ssa.Value(al) {
+						n++
+						par, _ = st.Val.(*ssa.Parameter)
+					}
+				}
+				if n == 1 && par != nil {
+					if i := idx(par); i >= 0 {
+						return paramSlot{i, fa.Field}, true
+					}
+				}
+			}
+		}
+	}
+	return paramSlot{}, false
+}
+
+// slotArg: the value a call site supplies for the slot; for a field of an options record the value
+// stored into that field of the literal built at the site, or the field's zero value when the
+// literal leaves it out.  nil when the site does not build the record there.
+func slotArg(site ssa.CallInstruction, s paramSlot) ssa.Value {
+	args := site.Common().Args
+	if s.Par >= len(args) {
+		return nil
+	}
+	arg := args[s.Par]
+	if s.Field < 0 {
+		return arg
+	}
+	ld, ok := arg.(*ssa.UnOp)
+	if !ok || ld.Op != token.MUL {
+		return nil
+	}
+	al, ok := ld.X.(*ssa.Alloc)
+	if !ok {
+		return nil
+	}
+	var val ssa.Value
+	n := 0
+	for _, ref := range *al.Referrers() {
+		fa, ok := ref.(*ssa.FieldAddr)
+		if !ok {
+			if _, isLoad := ref.(*ssa.UnOp); isLoad {
+				continue
+			}
+			if _, isDbg := ref.(*ssa.DebugRef); isDbg {
+				continue
+			}
+			return nil
+		}
+		if fa.Field != s.Field {
+			continue
+		}
+		for _, r2 := range *fa.Referrers() {
+			if st, ok := r2.(*ssa.Store); ok && st.Addr == ssa.Value(fa) {
+				val = st.Val
+				n++
+			}
+		}
+	}
+	if n > 1 {
+		return nil
+	}
+	if n == 0 {
+		st, ok := al.Type().Underlying().(*types.Pointer).Elem().Underlying().(*types.Struct)
+		if !ok || s.Field >= st.NumFields() {
+			return nil
+		}
+		return zeroConstOf(st.Field(s.Field).Type())
+	}
+	return val
+}
+
+func zeroConstOf(t types.Type) *ssa.Const {
+	if b, ok := t.Underlying().(*types.Basic); ok {
+		switch {
+		case b.Info()&types.IsBoolean != 0:
+			return ssa.NewConst(constant.MakeBool(false), t)
+		case b.Info()&types.IsString != 0:
+			return ssa.NewConst(constant.MakeString(""), t)
+		case b.Info()&types.IsInteger != 0:
+			return ssa.NewConst(constant.MakeInt64(0), t)
+		}
+	}
+	return ssa.NewConst(nil, t)
+}
+
+// slotsOfType: the slots of fn whose type satisfies pred (parameters and fields of by-value
+// struct parameters declared in the repository).
+func slotsOfType(fn *ssa.Function, pred func(types.Type) bool) []paramSlot {
+	var out []paramSlot
+	for i, par := range fn.Params {
+		if pred(par.Type()) {
+			out = append(out, paramSlot{i, -1})
+			continue
+		}
+		n, isNamed := par.Type().(*types.Named)
+		if !isNamed || n.Obj().Pkg() == nil || !strings.HasPrefix(n.Obj().Pkg().Path(), modPath) {
+			continue
+		}
+		if st, ok := n.Underlying().(*types.Struct); ok {
+			for k := 0; k < st.NumFields(); k++ {
+				if pred(st.Field(k).Type()) {
+					out = append(out, paramSlot{i, k})
+				}
+			}
+		}
+	}
+	return out
 }
